@@ -14,7 +14,9 @@ import (
 	metav1 "k8s.io/apimachinery/pkg/apis/meta/v1"
 	"k8s.io/client-go/tools/leaderelection/resourcelock"
 
+	"github.com/kubewharf/kubebrain/pkg/backend"
 	"github.com/kubewharf/kubebrain/pkg/backend/election"
+	"github.com/kubewharf/kubebrain/pkg/server/service/leader"
 
 	"kbverif/gate"
 	"kbverif/kb"
@@ -104,6 +106,7 @@ func cmdElectRun(args []string) int {
 			km := &gate.KeyMap{Special: map[string]string{prefix + "/election": "election"}}
 			st := &gate.Store{Inner: engs[en].KV, Rec: rec, Keys: km}
 			locks := map[string]resourcelock.Interface{}
+			infos := map[string]leader.LeaderElection{}
 			for c := range cands {
 				locks[c] = election.NewResourceLockManager(election.Config{Prefix: prefix, Identity: c, Timeout: time.Second}, st).GetResourceLock()
 			}
@@ -132,6 +135,14 @@ func cmdElectRun(args []string) int {
 				case "LDescribe":
 					_ = lk.Describe()
 					_ = lk.Identity()
+					// the queries the servers make of a node's election state (redirects, /status, the proxy) go through the leader
+					// service, which shares the lock object with the elector: they change nothing either
+					if infos[s.C] == nil {
+						infos[s.C] = leader.NewLeaderElection(&lockBackend{lk: lk}, kb.Metrics(), func(context.Context) {}, func() {})
+					}
+					_ = infos[s.C].GetLeaderInfo()
+					_, _ = infos[s.C].GetElectionInfo()
+					_ = infos[s.C].IsLeader()
 				case "LCreate", "LUpdate", "LRelease":
 					holder := s.C
 					if s.E == "LRelease" {
@@ -197,3 +208,11 @@ func cmdElectRun(args []string) int {
 	fmt.Printf("electrun engines=%s behaviours=%d agreed=%d obs_mismatch=%d ops=%d events=%d wall=%.1fs\n", *engine, rep.Histories, rep.Agreed, rep.ObsMismatch, rep.Ops, rep.Events, rep.WallS)
 	return 0
 }
+
+// lockBackend is the part of a backend the leader service needs for its queries: the lock object.
+type lockBackend struct {
+	backend.Backend
+	lk resourcelock.Interface
+}
+
+func (b *lockBackend) GetResourceLock() resourcelock.Interface { return b.lk }
